@@ -126,8 +126,8 @@ def eval_stmt(d, ref, ref_cache, stmt, dbname='d', timeout=30):
         except RefError:
             continue
         if compare_result(eng, arows, stmt.get('order'), stmt.get('limit'), stmt.get('offset')) is None:
-            detail['known'] = kid
-            return 'known:' + kid, detail
+            detail['known'] = kid.split('#')[0]
+            return 'known:' + kid.split('#')[0], detail
     return 'violation', detail
 
 
@@ -187,7 +187,9 @@ def _work(args):
                         out.setdefault('viol_tags', {})
                         vt = '%s [%s]' % (s.get('tag'), st)
                         out['viol_tags'][vt] = out['viol_tags'].get(vt, 0) + 1
-                        if len(out['violations']) < 10:
+                        tagc = out.setdefault('_tagc', {})
+                        tagc[s.get('tag')] = tagc.get(s.get('tag'), 0) + 1
+                        if len(out['violations']) < 40 and tagc[s.get('tag')] <= 2:
                             out['violations'].append({'property': prop, 'kind': 'sqldiff', 'config': cfg, 'db': u['db'],
                                                       'stmt': s, 'status': st, 'detail': detail})
                         continue
